@@ -4,6 +4,14 @@ TB = ("Trusted: Lean 4.33 kernel (axioms at most propext, Classical.choice, Quot
       "the hand-written model, tied to the code only by the correspondence run (differential testing of the model's executable definitions against the real crate on generated and enumerated inputs); "
       "SHA-256 as a free term algebra. ")
 TEXT = {
+    "C04": {
+        "text": "Theorems about one sync call on one log for all logs of any length: agreeing logs are left alone; a proper prefix on either side is fast-forwarded to equality in one call; two different suffixes on a shared prefix converge in one call to prefix ++ stable-time-sorted union, provided no commit hash occurs twice (auto_merge_converges_partial); the negation without that hypothesis is a proved witness and a recorded finding. The model (compare/offer/scan/merge/rewind composition) is tied to the real stack: every sync call of generated multi-device histories against real server storage is replayed per log on the model and must produce the same record sequences on both sides.",
+        "note": TB + "Modelled rather than verified: request transport (in-process client calling server_helpers like the handlers), storage as in C06. Partial: composition over all devices/orders validated by histories, not proved.",
+    },
+    "C05": {
+        "text": "Theorems about merge_patches for all suffix pairs, any timestamps: the merged patch is a permutation of local ++ remote (nothing lost, nothing added), sorted by time, stable on ties; the subset branch returns the remote suffix unchanged; commits stay unique when the inputs' commits are pairwise distinct (exactly_once_partial); identical events are duplicated (witness, recorded finding). Tied by running the real AutoMerge::merge_patches on generated pairs (ties, skew, identical events) and by the converged-log oracle on whole histories.",
+        "note": TB + "Modelled rather than verified: Vec::sort_by (stable). Folder-content consequences are C02's.",
+    },
     "C14": {
         "text": "One round-trip theorem per modelled type (for every value within explicit size guards and any trailing bytes): decode(encode v ++ rest) = (v, rest); encoding is a function (deterministic); the EventKind tag tables, regenerated from the source each run, are proved mutually inverse and injective, and every variant's written kind is proved to have a decoder arm rebuilding that variant. Byte-exact tie: the model decodes and re-encodes the real encoder's output and thousands of mutations, verdict and canonical bytes must equal the real decoder's.",
         "note": TB + "Modelled rather than verified: binary-stream primitives; types outside the model are listed in evidence (assumptions); protobuf wire bindings not yet modelled.",
